@@ -33,6 +33,7 @@ const PROFDATA_STUB2: &str = r#"#!/bin/sh
 out=""; prev=""
 for a in "$@"; do if [ "$prev" = "-o" ]; then out="$a"; fi; prev="$a"; done
 IFS= read -r first
+first="${first#1,}"
 . "$first.ctl"
 "#;
 
@@ -762,6 +763,17 @@ fn run_batch(rep: &mut Report, stubs: &Path, ext_gz: bool, all: Vec<Scenario>, t
         }
         if i < 2 {
             rep.sample(json!({"request": reqs[i], "model": ans[i], "real": real}));
+        }
+        // observation (review item 36): a profile item that is merged although one of its exports did
+        // not parse ("Error parsing file" is logged): the arm is not all-or-nothing
+        for (j, it) in sc.items.iter().enumerate() {
+            if let (Kind::L { merge_fail: false, exports, .. }, 'R' | 'D') = (&it.kind, it.fmt) {
+                let parsed = exports.iter().flatten().filter(|e| e.1.is_some()).count();
+                let skipped = exports.iter().flatten().filter(|e| e.1.is_none()).count();
+                if sc.binary == 1 && skipped > 0 && real_items.get(j).map(|r| r.starts_with("ok:")).unwrap_or(false) {
+                    rep.count(if parsed > 0 { "cons.llvm.merged_with_unparsable_and_parsable_exports" } else { "cons.llvm.merged_with_only_unparsable_exports" });
+                }
+            }
         }
         // ---- the independent oracle first
         let mut oracle_failed = false;
